@@ -33,6 +33,7 @@ def run(ctx):
     ctx.rule("R-REG", "decision table equals the spec")
     K.check_serial_start(ctx, f)
     ctx.rule("R-GRD", "success requires the guard literal")
+    K.check_serial_sign_guard(ctx, f)
     ctx.rule("R-CHK", "every success path passes a checked call to the sink")
     ctx.rule("R-FLOW", "operand provenance")
     ctx.rule("R-REG", "outcome regions by abstract interpretation equal the spec table")
